@@ -56,6 +56,25 @@ func checkFanout(c FanCase) vrep.Result {
 		actors = append(actors, expand(c.World.ActorURL(prefix, j)))
 	}
 	var wg sync.WaitGroup
+	// a burst: sixteen different addresses, each answered (after a moment) with a redirect to one of the world's
+	// objects, fetched at the same time - what opening a busy timeline through aliases looks like
+	if c.World.AliasRefs {
+		for n := 0; n < 16; n++ {
+			r := vsim.Redirect(302, urls[n%len(urls)])
+			r.Fault = &vsim.Fault{LatencyMs: 10 + n%3*10}
+			sim.Set(0, fmt.Sprintf("%s/burst/%d", prefix, n), r)
+		}
+		for n := 0; n < 16; n++ {
+			wg.Add(1)
+			go func(n int) {
+				defer wg.Done()
+				item := pub.New(sim.URL(0, fmt.Sprintf("%s/burst/%d", prefix, n)), nil)
+				if t, ok := item.(pub.Tangible); ok {
+					t.Preview(40)
+				}
+			}(n)
+		}
+	}
 	for w := 0; w < c.Workers; w++ {
 		wg.Add(1)
 		go func(w int) {
@@ -80,16 +99,30 @@ func checkFanout(c FanCase) vrep.Result {
 	}
 	done := make(chan struct{})
 	go func() { wg.Wait(); close(done) }()
-	select {
-	case <-done:
-	case <-time.After(60 * time.Second):
-		return vrep.Fail("the fan-out did not finish within 60 s")
+	// finished, or stuck: nothing in flight at the simulator for 10 s (servers answer within milliseconds, the client
+	// gives up after 2 s), or 60 s in all
+	quietSince, deadline := time.Now(), time.Now().Add(60*time.Second)
+wait:
+	for {
+		select {
+		case <-done:
+			break wait
+		case <-time.After(5 * time.Millisecond):
+		}
+		if sim.InFlight() != 0 {
+			quietSince = time.Now()
+		}
+		if time.Since(quietSince) > 10*time.Second || time.Now().After(deadline) {
+			return vrep.Result{Err: fmt.Errorf("%d workers fetching the same world at once have not finished, with no request in flight for %v: every request was answered, yet the fetches wait for one another (deadlock)", c.Workers, time.Since(quietSince).Round(time.Second))}
+		}
 	}
 	return vrep.Result{Classes: []string{fmt.Sprintf("workers:%d", c.Workers)}, Nontrivial: c.Workers >= 2}
 }
 
 func genFanout(t *rapid.T) FanCase {
-	return FanCase{World: vui.GenWorld(t), Workers: rapid.IntRange(2, 6).Draw(t, "workers"), Jitter: int64(rapid.IntRange(1, 1<<30).Draw(t, "jitter"))}
+	c := FanCase{World: vui.GenWorld(t), Workers: rapid.SampledFrom([]int{2, 3, 4, 6, 8, 12, 16}).Draw(t, "workers"), Jitter: int64(rapid.IntRange(1, 1<<30).Draw(t, "jitter"))}
+	c.World.AliasRefs = rapid.Bool().Draw(t, "aliasrefs")
+	return c
 }
 
 func TestFanout(t *testing.T) { vrep.Run(t, "Fanout", true, genFanout, checkFanout) }
